@@ -192,7 +192,106 @@ def _c_body(r, kind, alone):
     return True
 
 
+# ------------------------------------------------------------------ C18.d document level: every cell of a non-kern spine becomes exactly one token
+ODD_CELLS = (' ', '   ', '\xa0', '\u3000', ' x ', 'la', '-', '0')
+
+
+def ob_d(kind: int, c1: int, c2: int, two: bool) -> bool:
+    assume(0 <= kind < len(KINDS) and 0 <= c1 < len(ODD_CELLS) and 0 <= c2 < len(ODD_CELLS))
+    return _d_body(choose(kind, len(KINDS)), choose(c1, len(ODD_CELLS)), choose(c2, len(ODD_CELLS)), bool(two))
+
+
+@native
+def _d_body(kind, c1, c2, two):
+    header = KINDS[kind]
+    own = TABLE[header][1] if header in TABLE else 'OTHER'
+    heads = [header, header] if two else [header]
+    rows = [heads, [ODD_CELLS[c1]] * len(heads), ['=1'] * len(heads), [ODD_CELLS[c2]] + [ODD_CELLS[c1]] * (len(heads) - 1), ['*-'] * len(heads)]
+    text = '\n'.join('\t'.join(r) for r in rows) + '\n'
+    doc, errs = kp.loads(text)
+    check(not errs, f'import errors on {text!r}')
+    check(len(doc.tree.stages) - 1 == len(rows), f'{len(doc.tree.stages) - 1} stages for {len(rows)} lines of {text!r} (a line of cells was dropped)')
+    for r in (1, 3):
+        for j, cell in enumerate(rows[r]):
+            t = doc.tree.stages[r + 1][j].token
+            if cell in ('-',) and False:
+                continue
+            ref = None
+            try:
+                ref = kp.KernSpineImporter().import_token(cell)
+            except Exception:
+                pass
+            if ref is not None and ref.category.name in SHARED:
+                continue
+            check(t.encoding == cell and t.category.name == own, f'{header}: cell {cell!r} became {type(t).__name__} {t.encoding!r} {t.category.name}')
+    return True
+
+
+# ------------------------------------------------------------------ C18.e bounding boxes under every spine type, imported twice
+BOX_ROWS = ['*xywh-1:10,20,100,50', 'X1', '*xywh-1:10,400,100,50', 'X2', '=1', '*xywh-2:5,5,50,50', 'X3', '*-']
+
+
+def ob_e(kind: int, lead: bool) -> bool:
+    assume(0 <= kind < len(KINDS))
+    return _e_body(choose(kind, len(KINDS)), bool(lead))
+
+
+@native
+def _e_body(kind, lead):
+    from sv.ref.snap import snap, diff
+    header = KINDS[kind]
+
+    def col(h, rows=BOX_ROWS):
+        out, k = [h], 0
+        for c in rows:
+            if c.startswith('X'):
+                out.append(FILL[h][k % 4])
+                k += 1
+            else:
+                out.append(c)
+        return out
+
+    def texts(rows):
+        cols = [col(header, rows), col('**kern', rows)] if lead else [col('**kern', rows), col(header, rows)]
+        t = '\n'.join('\t'.join(c[i] for c in cols) for i in range(len(cols[0]))) + '\n'
+        r = '\n'.join('\t'.join(c[i] for c in [col('**kern', rows), col('**kern', rows)]) for i in range(len(cols[0]))) + '\n'
+        return t, r
+    text, ref_text = texts(BOX_ROWS)
+    # a later document in which the same box cells come in another order (each cell keeps ITS OWN geometry)
+    swapped = [BOX_ROWS[2], BOX_ROWS[1], 'X0', '*xywh-1:300,300,10,10', BOX_ROWS[0]] + BOX_ROWS[3:]
+    text3, ref_text3 = texts(swapped)
+
+    def boxes(d):
+        toks = [(n.token.encoding, (n.token.bounding_box.from_x, n.token.bounding_box.from_y, n.token.bounding_box.to_x, n.token.bounding_box.to_y))
+                for st in d.tree.stages for n in st if isinstance(n.token, tk.BoundingBoxToken)]
+        pages = sorted((str(k), (v.from_measure, v.to_measure, (v.bounding_box.from_x, v.bounding_box.from_y, v.bounding_box.to_x, v.bounding_box.to_y)))
+                       for k, v in d.page_bounding_boxes.items())
+        return toks, pages
+    d1, e1 = kp.loads(text)
+    b1 = boxes(d1)
+    d2, e2 = kp.loads(text)
+    b2 = boxes(d2)
+    ref = boxes(kp.loads(ref_text)[0])
+    check(not e1 and not e2, 'import errors')
+    check(diff(snap(d1), snap(d2)) == '' and b1[1] == b2[1], f'two imports of the same text under {header} differ: {b1} vs {b2}')
+    check(b2[1] == ref[1], f'page boxes under {header}: {b2[1]}, the same rows under **kern: {ref[1]}')
+    check(sorted(set(b2[0])) == sorted(set(ref[0])), f'box tokens under {header}: {sorted(set(b2[0]))}, under **kern {sorted(set(ref[0]))}')
+    d3, e3 = kp.loads(text3)
+    b3 = boxes(d3)
+    ref3 = boxes(kp.loads(ref_text3)[0])
+    check(not e3 and b3[1] == ref3[1] and sorted(set(b3[0])) == sorted(set(ref3[0])),
+          f'a later document with the same box cells in another order under {header}: {b3}, the same rows under **kern: {ref3}')
+    return True
+
+
 OBLIGATIONS = [
+    Ob(id='C18.d', fn=ob_d, title='documents: every cell of a non-kern spine (blank-only, padded, odd) becomes exactly one verbatim token',
+       shard_of=lambda kind, c1, c2, two: kind, shards={'quick': 7, 'thorough': 7}, budget_s={'quick': 120, 'thorough': 600},
+       witnesses=[{'kind': 0, 'c1': 0, 'c2': 5, 'two': False}], min_confirmed=300, enumerated='spine type, two cells from 8 odd texts, one / two columns',
+       bounds={'quick': '7 x 8 x 8 x 2', 'thorough': 'same'}),
+    Ob(id='C18.e', fn=ob_e, title='bounding-box interpretations under every spine type: same page boxes as under **kern, stable over repeated imports',
+       budget_s={'quick': 120, 'thorough': 600}, witnesses=[{'kind': 1, 'lead': True}], min_confirmed=10, enumerated='spine type, leading / trailing column',
+       bounds={'quick': '7 x 2 documents with three box rows on two pages, each imported twice', 'thorough': 'same'}),
     Ob(id='C18.a', fn=ob_a, title='createImporter dispatch on an arbitrary header string',
        budget_s={'quick': 120, 'thorough': 600}, witnesses=[{'h': '**text'}, {'h': '**zzz'}], min_confirmed=8,
        symbolic='header string', bounds={'quick': 'header <= 7 chars', 'thorough': 'header <= 9 chars'}),
